@@ -21,6 +21,7 @@
 From Coq Require Import ZArith List Bool Lia.
 From FT Require Import Base.Dict Model.Edit Model.EditExec Proofs.DictLemmas Proofs.EditInv Proofs.EditBook Proofs.EditInverse.
 From FT Require Proofs.EditWalk.
+From FT Require Gen.History_gen Proofs.HistoryGen Props.C02.
 Import ListNotations.
 Open Scope Z_scope.
 
@@ -210,6 +211,19 @@ Definition observe (st : state) :=
    then a paint stroke growing node 3 by two pixels, undo; then erasing node 2 altogether
    (deletes two edges, bridges 1->3, deletes the node), undo.  Every undo shows the state before
    the edit, the redo shows the state after it. *)
+(* ---- undo / redo: the history mechanism this property quantifies over (Tracks.undo / redo,
+        ActionHistory) is, in the model, the code translated on every run from the current
+        actions/action_history.py (Gen/History_gen.v); C02_timeline states what it guarantees ---- *)
+Theorem C01_history_is_generated : forall st a dA,
+  (let h := fst (FT.Gen.History_gen.add_new_action state action (FT.Proofs.HistoryGen.to_hist st) a st) in
+   undo_stack (hist_add st a) = FT.Gen.History_gen.undo_stack _ _ h /\ redo_stack (hist_add st a) = FT.Gen.History_gen.redo_stack _ _ h) /\
+  (let gr := FT.Gen.History_gen.undo state action FT.Proofs.HistoryGen.inv_total dA (FT.Proofs.HistoryGen.to_hist st) in
+   match undo st with
+   | Ok b s' => snd gr = b /\ undo_stack s' = FT.Gen.History_gen.undo_stack _ _ (fst gr) /\ redo_stack s' = FT.Gen.History_gen.redo_stack _ _ (fst gr)
+   | Err _ _ => True
+   end).
+Proof. exact FT.Props.C02.C02_edit_machine_uses_generated. Qed.
+
 Example C01_example_run :
   let s1 := step ex0 (OAddEdge 1 2 false) in
   let s2 := step (fst s1) OUndo in
@@ -320,3 +334,4 @@ Print Assumptions C01_user_update_attrs.
 Print Assumptions C01_trk_below_division.
 Print Assumptions C01_group.
 Print Assumptions C01_timeline_hypotheses.
+Print Assumptions C01_history_is_generated.
